@@ -515,7 +515,7 @@ class no_safety:
 # uninterpreted transcendental functions with instantiated axioms
 
 _R = z3.RealSort()
-UF_sqrt = z3.Function("sqrt", _R, _R)
+UF_sqrt = z3.Function("usqrt", _R, _R)
 UF_rpow = z3.Function("rpow", _R, _R, _R)
 UF_log = z3.Function("ln", _R, _R)
 UF_cos = z3.Function("cos", _R, _R)
